@@ -124,14 +124,19 @@ def main():
     root = os.getcwd()
     fn = run_reports if payload['mode'] == 'reports' else run_pickle
     resl = []
+    timeouts = 0
     for c in payload['cases']:
+        if timeouts >= 3:
+            resl.append({'ok': False, 'exc': 'TimeoutError', 'msg': 'skipped after 3 timeouts'})
+            continue
         d = tempfile.mkdtemp(dir=root)
         os.chdir(d)
         try:
             try:
-                with time_limit(60):
+                with time_limit(30):
                     resl.append(fn(c))
             except TimeoutError as e:
+                timeouts += 1
                 resl.append({'ok': False, 'exc': 'TimeoutError', 'msg': str(e)})
         finally:
             os.chdir(root)
